@@ -288,3 +288,84 @@ def inline_aliases(fn: ast.FunctionDef, targets: tuple[str, ...] = ("self.header
             return node
     fn = Drop().visit(fn)
     return ast.fix_missing_locations(fn)
+
+
+# --------------------------------------------------------------------------
+# conditional shapes
+# --------------------------------------------------------------------------
+
+def _assign_lines(fn: ast.FunctionDef) -> dict[str, list[int]]:
+    lines: dict[str, list[int]] = {}
+    for node in ast.walk(fn):
+        tg = []
+        if isinstance(node, ast.Assign):
+            tg = node.targets
+        elif isinstance(node, (ast.AugAssign, ast.AnnAssign, ast.For)):
+            tg = [node.target]
+        for t in tg:
+            for nm in ast.walk(t):
+                if isinstance(nm, ast.Name):
+                    lines.setdefault(nm.id, []).append(node.lineno)
+    return lines
+
+
+def canon_conditionals(fn: ast.FunctionDef) -> ast.FunctionDef:
+    """One shape for the three spellings of a two-way choice, and no value-naming locals:
+
+    * a local assigned once, at the top level of the method, from names / attributes / constants / arithmetic /
+      subscripts / dict literals / comparisons / `len(..)` whose operands are not reassigned afterwards, is substituted
+      into its uses (`shifts = -delays`, `n_new = new_ar.shape[1]`, `changes = {...}`, `odd = n % 2 == 1 and ...`);
+    * `h = F if c else G` followed by `h(args)` becomes `F(args) if c else G(args)`;
+    * `x = A if c else B` becomes `if c: x = A  else: x = B`."""
+    fn = copy.deepcopy(fn)
+    lines = _assign_lines(fn)
+    params = {a.arg for a in fn.args.args + fn.args.kwonlyargs}
+    simple = (ast.Name, ast.Attribute, ast.Constant, ast.BinOp, ast.UnaryOp, ast.BoolOp, ast.Compare, ast.Subscript,
+              ast.Dict, ast.Tuple, ast.IfExp, ast.operator, ast.unaryop, ast.boolop, ast.cmpop, ast.expr_context, ast.Slice)
+
+    def is_simple(e: ast.AST) -> bool:
+        for x in ast.walk(e):
+            if isinstance(x, ast.Call):
+                if not (isinstance(x.func, ast.Name) and x.func.id == "len"):
+                    return False
+            elif not isinstance(x, simple):
+                return False
+        return True
+
+    env: dict[str, ast.AST] = {}
+    new_body = []
+    for st in fn.body:
+        if (isinstance(st, ast.Assign) and len(st.targets) == 1 and isinstance(st.targets[0], ast.Name)
+                and st.targets[0].id not in params and len(lines.get(st.targets[0].id, [])) == 1 and is_simple(st.value)):
+            ok = True
+            for x in ast.walk(st.value):
+                if isinstance(x, ast.Name) and x.id not in env and any(ln > st.lineno for ln in lines.get(x.id, [])):
+                    ok = False
+            if ok:
+                env[st.targets[0].id] = _Subst(env).visit(copy.deepcopy(st.value))
+                continue
+        new_body.append(_Subst(env).visit(st))
+    fn.body = new_body
+
+    class CallOfIfExp(ast.NodeTransformer):
+        def visit_Call(self, node: ast.Call):
+            self.generic_visit(node)
+            f = node.func
+            if isinstance(f, ast.IfExp):
+                return ast.IfExp(test=f.test,
+                                 body=ast.Call(func=f.body, args=copy.deepcopy(node.args), keywords=copy.deepcopy(node.keywords)),
+                                 orelse=ast.Call(func=f.orelse, args=copy.deepcopy(node.args), keywords=copy.deepcopy(node.keywords)))
+            return node
+
+    fn = CallOfIfExp().visit(fn)
+
+    class AssignIfExp(ast.NodeTransformer):
+        def visit_Assign(self, node: ast.Assign):
+            if isinstance(node.value, ast.IfExp) and len(node.targets) == 1 and isinstance(node.targets[0], ast.Name):
+                v = node.value
+                return ast.If(test=v.test, body=[ast.Assign(targets=copy.deepcopy(node.targets), value=v.body, lineno=node.lineno)],
+                              orelse=[ast.Assign(targets=copy.deepcopy(node.targets), value=v.orelse, lineno=node.lineno)])
+            return node
+
+    fn = AssignIfExp().visit(fn)
+    return ast.fix_missing_locations(fn)
